@@ -562,12 +562,41 @@ func checkC12(c *Ctx) {
 				ins = append(ins, map[string]interface{}{"fn": fn, "hex": hex.EncodeToString(ur.Bytes(ur.Range(0, 300)))})
 			}
 		}
+		if i%4 == 0 {
+			// adversarial length indicators: a well-formed accept up to the session AMBR, then one
+			// optional IE of every format whose length indicator sits at a boundary of its width (the
+			// walker must end whatever it claims), followed by a well-formed PDU address
+			lens16 := []int{0, 1, 2, 0x7f, 0x80, 0xff, 0x100, 0x7ffd, 0x7fff, 0x8000, 0xfffc, 0xfffd, 0xfffe, 0xffff}
+			lens8 := []int{0, 1, 2, 0x7f, 0x80, 0xfc, 0xfd, 0xfe, 0xff}
+			head := []byte{0x2e, 0x05, 0x01, 0xc2, 0x11, 0x00, 0x02, 0x01, 0x01, 0x06, 0x06, 0x00, 0x64, 0x06, 0x00, 0x32}
+			tail := []byte{0x29, 0x05, 0x01, 10, 45, 0, 7}
+			var cases [][]byte
+			for _, iei := range []byte{0x75, 0x78, 0x79, 0x7b, 0x77} {
+				for _, l := range lens16 {
+					cases = append(cases, append(append(append([]byte{}, head...), iei, byte(l>>8), byte(l)), tail...))
+				}
+			}
+			for _, iei := range []byte{0x22, 0x25, 0x17, 0x66, 0x1f, 0x18} {
+				for _, l := range lens8 {
+					cases = append(cases, append(append(append([]byte{}, head...), iei, byte(l)), tail...))
+				}
+			}
+			for _, acc := range cases {
+				psi := byte(5)
+				msg := nas.Protect(2, []byte{0, 0, 0, 0}, 0, nas.DLNASTransport(acc, &psi, nil))
+				ins = append(ins, map[string]interface{}{"fn": "nas", "hex": hex.EncodeToString(msg)})
+			}
+		}
 		s := psScenario(root, "direct", 0, 2, false)
 		s.Rig["inputs"] = ins
 		s.Rig["no_shrink"] = true
 		jobs = append(jobs, Job{S: s, Rig: "ps", Judge: "ps-direct", Tag: "c12-direct"})
 	}
-	c.Batch(jobs, func(j Job, r *Run, fs []Finding) { c.Probes["direct-extraction-calls"] += 50; c.Evals += 49 })
+	c.Batch(jobs, func(j Job, r *Run, fs []Finding) {
+		n := len(j.S.Rig["inputs"].([]interface{}))
+		c.Probes["direct-extraction-calls"] += n
+		c.Evals += n - 1
+	})
 	c.sigs = shapes
 }
 
@@ -721,6 +750,45 @@ func multiScenario(rp *kernel.Rand, o multiOpts) *scn.Scenario {
 	return s
 }
 
+// reregScenario: one UE context registers, deregisters and registers again (optionally with other
+// algorithms). The subscriber list names the same SUPI twice.
+func reregScenario(rp *kernel.Rand, profile string) *scn.Scenario {
+	g := GenOpts{Profile: profile, Mode: "test", MinReg: 1, MaxReg: 1, Latency: "zero", ExplicitUEs: 2, OptIEs: true, MinMSIN: 4}
+	s := Gen(rp.Uint64(), g)
+	s.Args = []string{}
+	s.Subscribers = []string{s.Config.IMSI, s.Config.IMSI}
+	s.Population = 2
+	pairs := [][2]int{{0, 1}, {0, 2}, {1, 1}, {1, 2}, {2, 1}, {2, 2}}
+	via := rp.Chance(1, 3)
+	p := pairs[rp.Intn(6)]
+	if via {
+		p = [2]int{0, 2}
+	}
+	s.Rig = map[string]interface{}{"mode": "rereg", "nea": p[0], "nia": p[1], "ran_id": 1 + rp.Intn(1000), "via_create_ue": via}
+	if rp.Chance(1, 2) { // other algorithms for the second life
+		q := pairs[rp.Intn(6)]
+		s.Rig["nea2"], s.Rig["nia2"] = float64(q[0]), float64(q[1])
+	}
+	for len(s.UEs) < 2 {
+		u := genUE(rp.Sub(fmt.Sprint("ue", len(s.UEs))), g, len(s.UEs))
+		u.AmfUeID = int64(1000*len(s.UEs)) + u.AmfUeID%1000
+		s.UEs = append(s.UEs, u)
+	}
+	s.UEs = s.UEs[:2]
+	if s.UEs[0].AmfUeID == s.UEs[1].AmfUeID {
+		s.UEs[1].AmfUeID++
+	}
+	return s
+}
+
+func reregJobs(rp *kernel.Rand, n int, profile, judge, tag string) []Job {
+	var jobs []Job
+	for i := 0; i < n; i++ {
+		jobs = append(jobs, Job{S: reregScenario(rp, profile), Rig: "ps", Judge: judge, Tag: tag})
+	}
+	return jobs
+}
+
 // coreUEs returns the reference core's per-UE summary taken right after the registrations.
 func coreUEs(r *Run) []map[string]interface{} {
 	for _, e := range r.Events {
@@ -804,6 +872,9 @@ func init() {
 	judges["ps-multi"] = judgePSMulti
 	judges["ps-multi-c05"] = func(r *Run) []Finding {
 		return onlyRules(judgePSMulti(r), "aka.res", "nas.mac", "nas.container", "nas.decode", "keys.", "exit.status", "panic", "hang", "watchdog", "unobserved.")
+	}
+	judges["ps-rereg-c16"] = func(r *Run) []Finding {
+		return onlyRules(judgePSMulti(r), "ident.seccap", "nas.seccap", "nas.mac", "nas.sht", "aka.res", "exit.status", "panic", "hang", "watchdog", "unobserved.")
 	}
 	judges["ps-multi-c16"] = func(r *Run) []Finding {
 		return onlyRules(judgePSMulti(r), "ident.", "suci.", "aka.res", "nas.seccap", "nas.mac", "nas.sht", "exit.status", "panic", "hang", "watchdog", "unobserved.")
